@@ -16,8 +16,8 @@
 EXTENDS Integers, Sequences, FiniteSets, TLC, Json
 
 CONSTANTS Shapes, MaxCalls, ShallowMerge, Hist
-VARIABLES shape, attrs, ref, ncalls, h
-vars == <<shape, attrs, ref, ncalls, h>>
+VARIABLES shape, attrs, ref, ncalls, own, h
+vars == <<shape, attrs, ref, ncalls, own, h>>
 
 \* layer trees: a set of paths (sequences of child names); every prefix-closed set over names {"a","b"} up to depth 3
 LayersOf(s) == CASE s = "flat"  -> {<<>>}
@@ -50,10 +50,12 @@ Log(e) == h' = IF Hist THEN Append(h, e) ELSE h
 Cnt0(L) == [p \in L |-> 0]
 Init == /\ shape \in Shapes
         /\ attrs = AttrsOf(VarsOf(LayersOf(shape), Cnt0(LayersOf(shape))))     \* lazy_init (counters start at 0; init does not count)
-        /\ ref = Cnt0(LayersOf(shape)) /\ ncalls = 0 /\ h = <<>>
+        /\ ref = Cnt0(LayersOf(shape)) /\ ncalls = 0 /\ own = 0 /\ h = <<>>
 
-\* one call of the wrapper; mutable = the batch_stats collection is mutable in this call
-Call(mutable) ==
+\* one call of the wrapper; mutable = the batch_stats collection is mutable in this call;
+\* rng = 0: the wrapper's own streams supply the key the root layer draws (and advance), rng = s > 0: the caller passes
+\* rngs = Rngs(dropout = s) for this call - the wrapped module sees that stream's first key and the wrapper's own stream stays put
+Call(mutable, rng) ==
   /\ ncalls < MaxCalls
   /\ LET L == LayersOf(shape)
          v == VarsFrom(attrs)
@@ -64,11 +66,15 @@ Call(mutable) ==
          upd == [key \in {k \in DOMAIN v : k[1] = "batch_stats"} |-> v[key] + 1]
      IN /\ attrs' = IF mutable /\ complete THEN MergeAll(attrs, AttrsOf(upd)) ELSE attrs
         /\ ref' = IF mutable THEN [p \in L |-> ref[p] + 1] ELSE ref
-        /\ Log([mutable |-> mutable, ok |-> complete, out |-> out,
+        /\ own' = IF rng = 0 THEN own + 1 ELSE own
+        /\ Log([mutable |-> mutable, ok |-> complete, out |-> out, rng |-> rng,
+                keyid |-> IF rng = 0 THEN <<0, own + 1>> ELSE <<rng, 1>>,
                 refcnt |-> {<<p, (IF mutable THEN ref[p] + 1 ELSE ref[p])>> : p \in L}])
   /\ ncalls' = ncalls + 1
   /\ UNCHANGED shape
-Next == \E m \in BOOLEAN : Call(m)
+Next == \E m \in BOOLEAN, r \in {0, 7, 8} : Call(m, r)
+\* a key is handed to the wrapped module twice only when the caller passes the same fresh stream twice
+KeyDiscipline == own <= ncalls
 Spec == Init /\ [][Next]_vars
 
 \* the wrapper's state is always what applying the Linen module directly on its variables leaves
